@@ -695,6 +695,44 @@ def rule_index_lists_validated(ctx, cfg='prod-all', table=INDEX_LISTS):
                      fact={'element_symbols': sorted(es), 'other_length_symbols': sorted(l2)}, expected='no such bound')
 
 
+def rule_blind_verifier_index_ranges(ctx, cfg='prod-all'):
+    """The blind verifier is told which disclosed messages the signer chose (positions below L) and which the prover committed to (positions
+    below M, placed after the L signer messages and the blind factor).  Where the generator list is asked for (`prepare_parameters(.., L + 1,
+    M + 1, ..)` - everything after it works on the concatenated lists), every element of `disclosed_indexes` must be known to be below L and
+    every element of `disclosed_commitment_indexes` below M, and each message list must have exactly the length of its own index list:
+    otherwise a committed message, or the blind factor, verifies as a signer message (and the other way round).  L and M are read off the two
+    counts handed to prepare_parameters."""
+    from rf_codec import T as _T2
+    prog, za, eng = ctx.prog(cfg), ctx.zone(cfg), ctx.eng(cfg)
+    body = resolve_fn(prog, _T.POK + 'blind_proof_verify')
+    za.summary(body.path)
+    zf = za.zf(body.path)
+    site = None
+    for bi, t in body.calls():
+        if (local_target(eng, t) or '').endswith('prepare_parameters') and len(t['args']) >= 4:
+            site = (bi, t)
+    if site is None:
+        raise AnchorMissing('%s: no prepare_parameters call' % body.path)
+    bi, t = site
+    counts = [zf.term_op(t['args'][2]), zf.term_op(t['args'][3])]
+    for (ilist, mlist, cnt, what) in (('disclosed_indexes', 'disclosed_messages', counts[0], 'L'), ('disclosed_commitment_indexes', 'disclosed_committed_messages', counts[1], 'M')):
+        ki, km = body.param_index(ilist), body.param_index(mlist)
+        if ki is None or km is None:
+            raise AnchorMissing('%s: parameters %s / %s' % (body.path, ilist, mlist))
+        es = _syms_from_param(zf, 'elem', ki)
+        # elem + 1 <= count - 1, i.e. elem + 2 <= count  (count = L + 1 / M + 1)
+        ok = cnt is not None and bool(es) and any(zf.prove_le((e, 2), cnt, bi) for e in es)
+        yield Ob('RF-L', '%s#range:%s<%s' % (body.path, ilist, what), ok,
+                 'every element of `%s` is below %s where the generators are derived' % (ilist, what), '%s L%s' % (body.file(), t.get('line')),
+                 fact={'element_symbols': sorted(es), 'count_term': str(cnt)}, expected='elem + 1 <= %s' % what)
+        li = _syms_from_param(zf, 'len', ki)
+        lm = _syms_from_param(zf, 'len', km) | {'len:' + mlist}
+        both = bool(li) and bool(lm) and any(zf.prove_le((a, 0), (b_, 0), bi) and zf.prove_le((b_, 0), (a, 0), bi) for a in li for b_ in lm)
+        yield Ob('RF-L', '%s#same-length:%s~%s' % (body.path, mlist, ilist), both,
+                 '`%s` has exactly as many entries as `%s`' % (mlist, ilist), '%s L%s' % (body.file(), t.get('line')),
+                 fact={'index_length_symbols': sorted(li), 'message_length_symbols': sorted(lm)}, expected='equal lengths')
+
+
 # ---------------------------------------------------------------------------------- decoder input integrity
 ASSIGN_OPS = ('BitAndAssign::bitand_assign', 'BitOrAssign::bitor_assign', 'BitXorAssign::bitxor_assign', 'ShlAssign::shl_assign', 'ShrAssign::shr_assign',
               'AddAssign::add_assign', 'SubAssign::sub_assign', 'MulAssign::mul_assign', 'DivAssign::div_assign', 'RemAssign::rem_assign', 'Not::not',
